@@ -21,6 +21,7 @@ from mc.core.runner import Space
 from mc.gen import exprprint as E
 from mc.gen import jstok, progs
 from .common import engine, mismatch_kind, tail
+from .c06 import agree_pow
 
 PROP = "C13"
 LEVEL = "exploration"
@@ -175,7 +176,7 @@ NROOT = len(E.OPNAMES)
 def _prec_space(name, names, nops, roots, kind, rule, bound):
     if kind == "table":
         return Space(name, RUN, lambda: prec_cases(names, nops, roots, kind), oracle="table", nontrivial=_pl_nt,
-                     rule=rule, bound=bound, batch=300)
+                     rule=rule, bound=bound, batch=300, agree=agree_pow)
     runner = "mc.props.c13:run_meta" if kind == "meta" else "mc.props.c13:run_parse"
     return Space(name, runner, lambda: prec_cases(names, nops, roots, kind), oracle="inline", nontrivial=_pl_nt,
                  rule=rule, bound=bound, batch=300 if kind == "meta" else 1000)
@@ -791,6 +792,11 @@ def spaces(tier, seed, all_strata=False):
 # =============================================================================================
 # reporting
 
+def agree_for_space(name):
+    # `**` is implementation-approximated: a result within 2 ulp of V8's is accepted in the V8-table spaces
+    return agree_pow if (name.startswith("c13_prec") and name.endswith("_table")) else None
+
+
 def node_src(cid, payload):
     return payload["src"] if isinstance(payload, dict) and "src" in payload else cid
 
@@ -919,6 +925,10 @@ def signature(sp, cid, payload, exp, obs):
         lab = p.get("lab", "?")
         shape = _lab_classes(lab)
         cul = _culprit(lab)
+        if (obs == "Esyntax" if kindname == "struct" else (tail(obs) == "Esyntax" and tail(exp) != "Esyntax")):
+            return "%s|nested-paren-postfix" % kindname, (
+                "minimal-parenthesis source is rejected with a SyntaxError: a parenthesised expression that directly follows "
+                "another `(` and is continued by . [ ( or ++, e.g. `f((a + b).p)`, `new ((a || b)(c))`, `((a, b)[c], d)`")
         if kindname == "struct":
             k = _struct_kind(exp, obs)
             if cul:
@@ -945,8 +955,8 @@ def signature(sp, cid, payload, exp, obs):
                                                    "`new K + a` throws instead of concatenating \"[object Object]\": %s" % k)
         for P, i, C in edges:
             if P == "udelete":
-                return "prec|delete-%s|%s" % (C, k), ("value vs V8 (not a parsing defect): `delete` applied to %s (e.g. `%s`): %s; the operand's "
-                                                      "side effect / the result differs" % (C, eg, k))
+                return "prec|delete|%s" % k, ("value vs V8 (not a parsing defect): `delete` of a non-reference operand or an array "
+                                              "element (e.g. `%s`): %s; the operand's side effect / the result differs" % (eg, k))
         return "prec|%s|%s" % (shape, k), "operator nesting %s (e.g. `%s`) vs V8: %s" % (shape, eg, k)
     if name.startswith("c13_paren"):
         k = mismatch_kind(exp, obs)
